@@ -189,4 +189,56 @@ def renameChecksAncestors (fs : List FlowFact) : Bool :=
   ["oldname", "newname"].all (fun v => all.any (fun g => g.target == "self" && g.callee == "isParentOfHidden" && g.args == [v])) &&
   paramsOf methodParams "HiddenFS" "Rename" == ["oldname", "newname"]
 
+/-! ### the copy / restore helpers -/
+
+def nth (l : List String) (i : Nat) : Option String := l[i]?
+
+/-- while a backup is taken (`tryBackup`, `backupDirs`) the helpers that write are pointed at the
+BACKUP filesystem, and nothing restores -/
+def backupHelpersWriteBackupOnly (fs : List FlowFact) : Bool :=
+  ["tryBackup", "backupDirs", "backupRequired"].all (fun m =>
+    (ofMethod fs "BackupFS" m).all (fun f =>
+      f.target != "pkg" ||
+      (if f.callee == "copyDir" || f.callee == "copyFile" || f.callee == "writeFile" then nth f.args 0 == some "fsys.backup"
+       else if f.callee == "copySymlink" then nth f.args 0 == some "fsys.base" && nth f.args 1 == some "fsys.backup"
+       else !(["restoreFile", "restoreSymlink", "chown"].contains f.callee)))) &&
+  -- … and `tryBackup` does copy: files, links and (through `backupDirs`) directories
+  (ofMethod fs "BackupFS" "tryBackup").any (fun f => f.target == "pkg" && f.callee == "copyFile") &&
+  (ofMethod fs "BackupFS" "tryBackup").any (fun f => f.target == "pkg" && f.callee == "copySymlink") &&
+  (ofMethod fs "BackupFS" "backupDirs").any (fun f => f.target == "pkg" && f.callee == "copyDir")
+
+/-- during Rollback the helpers that write are pointed at the BASE filesystem, reading from the backup -/
+def restoreHelpersWriteBaseOnly (fs : List FlowFact) : Bool :=
+  (["Rollback"] ++ rollbackHelpers).all (fun m =>
+    (ofMethod fs "BackupFS" m).all (fun f =>
+      f.target != "pkg" ||
+      (if f.callee == "copyDir" then nth f.args 0 == some "fsys.base"
+       else if f.callee == "restoreFile" || f.callee == "restoreSymlink" then nth f.args 2 == some "fsys.base" && nth f.args 3 == some "fsys.backup"
+       else !(["copyFile", "copySymlink", "writeFile"].contains f.callee)))) &&
+  (ofMethod fs "BackupFS" "tryRestoreFilePaths").any (fun f => f.target == "pkg" && f.callee == "restoreFile") &&
+  (ofMethod fs "BackupFS" "tryRestoreSymlinkPaths").any (fun f => f.target == "pkg" && f.callee == "restoreSymlink") &&
+  (ofMethod fs "BackupFS" "tryRestoreDirPaths").any (fun f => f.target == "pkg" && f.callee == "copyDir")
+
+/-- the clean-up of Rollback deletes from the backup with `Remove` only, and `restoreSymlink` makes
+room on the base with `Remove` only (no `RemoveAll`: foreign content survives) -/
+def cleanupUsesRemoveOnly (fs : List FlowFact) : Bool :=
+  (ofMethod fs "BackupFS" "tryRemoveBackupPaths").all (fun f => f.target != "backup" || !mutating f || f.callee == "Remove") &&
+  (ofMethod fs "BackupFS" "tryRemoveBackupPaths").any (fun f => f.target == "backup" && f.callee == "Remove") &&
+  (ofMethod fs "BackupFS" "tryRemoveBasePaths").all (fun f => f.target != "base" || !mutating f || f.callee == "Remove") &&
+  (ofMethod fs "" "restoreSymlink").all (fun f => f.callee != "RemoveAll") &&
+  (ofMethod fs "" "restoreSymlink").any (fun f => f.target == "param:base" && f.callee == "Remove")
+
+def indexOf? (l : List FlowFact) (p : FlowFact → Bool) : Option Nat :=
+  (l.findIdx? p)
+
+/-- `copyFile`: content first, then the owner, then the mode (chown clears set-id bits), then times -/
+def copyFileOwnerBeforeMode (fs : List FlowFact) : Bool :=
+  let l := ofMethod fs "" "copyFile"
+  match indexOf? l (fun f => f.target == "pkg" && f.callee == "writeFile"),
+        indexOf? l (fun f => f.target == "pkg" && f.callee == "chown"),
+        indexOf? l (fun f => f.target == "param:fs" && f.callee == "Chmod"),
+        indexOf? l (fun f => f.target == "param:fs" && f.callee == "Chtimes") with
+  | some w, some o, some m, some t => w < o && o < m && m < t
+  | _, _, _, _ => false
+
 end Flow
